@@ -106,11 +106,16 @@ def check_row(s, cfg, m, row, tag, call=None):
     ld_c, ld_l, ld_r = got
     if abs(ld_c) > 1e-9:
         info["nontrivial"] = True
-    one_sided_agree = np.isfinite(ld_l) and np.isfinite(ld_r) and abs(ld_l - ld_r) <= 1e-6 * max(1, D) + 1e-6 * abs(ld_l)
+    fd = last_fd.get("fd")
+    Jl, Jr = fd["Jl"], fd["Jr"]
+    scale_ = max(1.0, float(np.max(np.abs(Jl))))
+    # kinked coordinates: the two one-sided derivative columns differ (decided per column, not on the determinants,
+    # which can agree by symmetry when two coordinates sit on mirror-image kinks)
+    kc = [i for i in range(D) if np.max(np.abs(Jl[:, i] - Jr[:, i])) > 1e-6 * scale_]
     central_agrees = np.isfinite(ld_c) and abs(ld_c - 0.5 * (ld_l + ld_r)) <= 1e-6
-    smooth = bool(one_sided_agree)
+    smooth = not kc and np.isfinite(ld_l) and np.isfinite(ld_r)
     if smooth:
-        # both one-sided 4th-order limits agree: the derivative is continuous here (C1 knots included);
+        # both one-sided 4th-order limits agree column by column: the derivative is continuous here (C1 knots included);
         # the central stencil is only used when it agrees (it straddles the knot otherwise)
         ref = ld_c if central_agrees else 0.5 * (ld_l + ld_r)
         ld_c = ref
@@ -118,30 +123,25 @@ def check_row(s, cfg, m, row, tag, call=None):
     else:
         info["kink"] = True
         cands = [v for v in (ld_l, ld_r) if np.isfinite(v)]
-        # several coordinates on kinks at once (2-deviation rows): every mix of one-sided columns is legitimate
-        fd = last_fd.get("fd")
-        if fd is not None:
-            Jl, Jr = fd["Jl"], fd["Jr"]
-            scale_ = max(1.0, float(np.max(np.abs(Jl))))
-            kc = [i for i in range(D) if np.max(np.abs(Jl[:, i] - Jr[:, i])) > 1e-6 * scale_]
-            if 2 <= len(kc) <= 6:
-                import itertools as _it
+        # every mix of one-sided columns over the kinked coordinates is a legitimate derivative
+        if 2 <= len(kc) <= 6:
+            import itertools as _it
 
-                for choice in _it.product((0, 1), repeat=len(kc)):
-                    J = Jl.copy()
-                    for i, ch in zip(kc, choice):
-                        if ch:
-                            J[:, i] = Jr[:, i]
-                    v = logabsdet(J)
-                    if np.isfinite(v):
-                        cands.append(v)
-            elif len(kc) > 6:
-                info["skip"] = "more than 6 kinked coordinates"
-                return out, info
+            for choice in _it.product((0, 1), repeat=len(kc)):
+                J = Jl.copy()
+                for i, ch in zip(kc, choice):
+                    if ch:
+                        J[:, i] = Jr[:, i]
+                v = logabsdet(J)
+                if np.isfinite(v):
+                    cands.append(v)
+        elif len(kc) > 6:
+            info["skip"] = "more than 6 kinked coordinates"
+            return out, info
         if not cands:
             info["skip"] = "singular-fd"
             return out, info
-        slack = 10 * tol + 1e-3 * abs(ld_l - ld_r)
+        slack = 10 * tol + 1e-3 * (max(cands) - min(cands))
         ok = min(cands) - slack <= L <= max(cands) + slack
     if not ok:
         # re-establish with batch size 1 before blaming this property (C12 owns batch mixing)
